@@ -7,6 +7,7 @@ open SophiaProofs.C10
 #print axioms no_dangling
 #print axioms read_after_history
 #print axioms clone_same_content
+#print axioms clone_same_quads
 #print axioms clone_independent
 #print axioms clone_independent_run
 #print axioms derive_clone_dangles
